@@ -114,3 +114,27 @@ From Resolvo Require Import Cdcl.PropComplete.
 Theorem C01_complete_units_hold : forall db pa c l,
   prop_complete db pa = true -> In c db -> cl_lits c = [l] -> lit_istrue pa l = true.
 Proof. exact complete_units_hold. Qed.
+
+(* ---- the solver model as a whole loses no clause (Cdcl/SolverComplete.v): the invariant of
+   C05_propagate_complete is carried through the whole loop nest of the model of Solver::solve --
+   decisions, propagation with either outcome, conflict analysis with backjump, rejected soft
+   requirements, restarts, lazily added clauses -- for every well-formed provider, problem,
+   fuel, activity function and completion order ---- *)
+From Resolvo Require Import Cdcl.SolverComplete.
+
+Theorem C01_solver_model_complete : forall U P, WF U -> forall A a_ge a_conflict fuel efuel (a0 : A) order sol st,
+  solve U P a_ge a_conflict fuel efuel a0 order = (OSat sol, st) ->
+  CInv A st /\ (pr_soft P = [] -> Done A st).
+Proof. exact solve_complete. Qed.
+
+(* hence: when the model answers with a solution for a problem without soft requirements, the trail
+   the solution is read from falsifies no watched clause -- outside the ghost set s_born (clauses that
+   started being watched with both watched literals false after the last restart), which the whole-run
+   correspondence reports for every run and which must be empty there -- and makes every registered
+   assertion true *)
+Theorem C01_solver_model_loses_no_clause : forall U P, WF U -> forall A a_ge a_conflict fuel efuel (a0 : A) order sol st,
+  solve U P a_ge a_conflict fuel efuel a0 order = (OSat sol, st) -> pr_soft P = [] ->
+  (forall id w, wget (ps_watch (s_ps st)) id = Some w -> ~ In id (s_born st) ->
+     exists c, nth_error (s_db st) (N.to_nat id) = Some c /\ falsified (ps_trail (s_ps st)) (cl_lits c) = false) /\
+  (forall x, In x (s_asserts st ++ s_units st) -> plit_true (s_ps st) (fst x) = true).
+Proof. exact solve_sat_loses_no_clause. Qed.
